@@ -215,7 +215,7 @@ def hygiene():
     return bad
 
 
-def check_proofs(pid):
+def check_proofs(pid, recheck=False):
     """Recompiles coq/properties/<pid>.v (so that its Print Assumptions output is fresh) and returns
     (obligations, discharged, problems, theorem names)."""
     src = os.path.join(COQ, 'properties', pid + '.v')
@@ -254,6 +254,14 @@ def check_proofs(pid):
                 problems.append('axiom used: ' + m.group(1))
     if closed + len(axioms) < len(names):
         problems.append('Print Assumptions missing for some theorems (%d of %d)' % (closed + len(axioms), len(names)))
+    if recheck and not problems:
+        # thorough tier: the independent checker re-checks the compiled property file and everything it depends on
+        with open(os.path.join(CACHE, 'build.lock'), 'w') as lock:
+            fcntl.flock(lock, fcntl.LOCK_EX)
+            rc, out = sh(['coqchk', '-silent', '-o', '-Q', 'theories', 'WaxModel', '-Q', 'proofs', 'WaxProofs',
+                          '-Q', 'properties', 'WaxProps', 'WaxProps.' + pid], cwd=COQ, timeout=1800)
+        if rc != 0 or '* Axioms: <none>' not in out:
+            problems.append('coqchk does not accept properties/%s.vo: %s' % (pid, out.strip()[-800:]))
     return len(names), (len(names) if not problems else 0), problems, names
 
 
